@@ -1142,10 +1142,12 @@ def gen_mods(rng, rows, session):
         # subtract_drift (Series.diff on the labels) and link_partial (writes integer ids into the
         # column) reject them on the plain default-indexed table as well, so they are a filter-only
         # class (reported, see the final report of wip-S2)
-        kinds += ["category", "str"]
+        kinds += ["category", "str", "negative"]                 # link_partial reads ids < 0 as 'unlabelled'
     m["particle_kind"] = rng.choice(kinds)
     if rng.random() < 0.3:
         m["frame_map"] = [rng.choice([1, 1, 2, 3]), rng.choice([-3, -20, -1, 1000, 0])]
+    if rng.random() < 0.12:
+        m["frame_dtype"] = rng.choice(["float64", "int32"])     # link coerces float frames to int64
     if rng.random() < 0.25:
         m["extra"] = rng.sample(EXTRA_NAMES, rng.randint(1, 2))
     if rng.random() < 0.2:
@@ -1173,6 +1175,8 @@ def build_table(rows, mods, layout, variant):
     if m.get("frame_map"):
         a, b = m["frame_map"]
         df["frame"] = (a * df["frame"] + b).astype(np.int64)
+    if m.get("frame_dtype"):
+        df["frame"] = df["frame"].astype(m["frame_dtype"])
     sd = m.get("size_dtype", "float64")
     if sd in ("int64", "int32"):
         df["size"] = np.round(df["size"].values * 4).astype(sd)   # sizes k/4 -> the integer k
@@ -1204,6 +1208,8 @@ def build_table(rows, mods, layout, variant):
         df["particle"] = P.Series(["p%d" % v for v in df["particle"].values])
     elif pk == "category":
         df["particle"] = df["particle"].astype("category")
+    elif pk == "negative":
+        df["particle"] = -df["particle"] - 1
     elif pk != "int64":
         df["particle"] = df["particle"].astype(pk)
     for j, name in enumerate(m.get("extra", [])):
@@ -1227,6 +1233,8 @@ def mods_stats(res, t, mods):
         res.stat("nan_position_tables")
     res.stat("size_dtype_%s" % m.get("size_dtype", "float64"))
     res.stat("particle_kind_%s" % m.get("particle_kind", "int64"))
+    if m.get("frame_dtype"):
+        res.stat("frame_dtype_%s" % m["frame_dtype"])
     if m.get("pos_dtype"):
         res.stat("%s_position_tables" % m["pos_dtype"])
     fr = np.unique(t["frame"].values)
